@@ -109,6 +109,25 @@ def run(repo: Repo, rep: Report, tier: str) -> None:
     rep.need(set(pm.classes) == set(sp["classes"]), f"codec classes differ from the 23 of the spec: {sorted(set(pm.classes) ^ set(sp['classes']))}")
     rep.floor("codec classes", len(pm.classes), 23)
 
+    # a length field is a function of the *current* field values: a length property that reads the private
+    # variable the decoder stored the received length in keeps announcing the length of a value that has
+    # since been replaced (decode -> modify / from_primitive -> encode)
+    for name in sp["classes"]:
+        ci = pm.classes[name]
+        try:
+            priv = {r[2] for r in pm.decoder_rows(ci) if isinstance(r[2], str) and r[2].startswith("_")}
+        except AnalysisError:
+            priv = set()
+        if not priv:
+            continue
+        for pname, g in ci.getters.items():
+            if not pname.endswith("_length"):
+                continue
+            for x in walk_no_nested(g):
+                if isinstance(x, ast.Attribute) and isinstance(x.ctx, ast.Load) and norm(x.value) == "self" and x.attr in priv:
+                    rep.fail("length", f"{ci.mod.name.replace('pynetdicom.', '')}.{name}.{pname}", f"reads self.{x.attr}", f"the length property returns / tests self.{x.attr}, the length the decoder received, instead of measuring the current value: after a decoded item is modified (or re-filled by from_primitive) the length field no longer equals the length of what follows it, and the parent lengths are wrong with it", mod=ci.mod, node=x)
+                    break
+
     for name, cs in sp["classes"].items():
         ci = pm.classes[name]
         mod = ci.mod
@@ -196,6 +215,8 @@ def run(repo: Repo, rep: Report, tier: str) -> None:
     check_primitive_pairs(repo, rep, pm)
     check_fresh_per_iteration(repo, rep)
     check_variant_selection(repo, rep)
+    from .c01_prims import check_numeric_ranges
+    check_numeric_ranges(repo, rep)
     # ---- absent is None, not falsy ---------------------------------------------------------
     from ..lints import zero_legal_truthiness
     rep.rule("none-not-falsy", "PDU / primitive parameters whose falsy value is legal (b'' response, 0 codes, 0 = unlimited, False role) are tested with `is None`")
